@@ -295,9 +295,9 @@ impl PathSliceList {
                         }
                     }
                     write!(ret, "Q.a([")?;
-                    let mut next_need_comma_sep = false;
-                    for (sub_pas, sub_p) in v.iter() {
-                        if next_need_comma_sep {
+                    for (index, (sub_pas, sub_p)) in v.iter().enumerate() {
+                        // an item without any path is left as a hole, so that every item keeps its index
+                        if index > 0 {
                             write!(ret, ",")?;
                         }
                         let mut s = String::new();
@@ -309,7 +309,6 @@ impl PathSliceList {
                         )?;
                         if let Some(_) = sub_pas_str {
                             write!(ret, "{}", s)?;
-                            next_need_comma_sep = true;
                         }
                     }
                     write!(ret, "])")?;
